@@ -172,6 +172,21 @@ def run_plan(r, w, plan, tags):
         r.count("histories")
         if not check_triplets(r, w, plan, tr2, layout, False, tags):
             return False
+    # (b2) the same long-lived exporter, first on a second problem with other objects, then on this one: an exporter
+    # must not remember anything between plans
+    if plan:
+        exp = w.__dict__.setdefault("_shared_exporter", TrajectoryExporter(w.D))
+        if name_has_other(w):
+            other = guard(lambda: exp.parse_plan(w.P_other, action_sequence=list(lines)))
+            r.count("histories")
+            w_other = w.other
+            if not isinstance(other, Raised) and not check_triplets(r, w_other, plan, other, "shared-exporter-other-problem",
+                                                                    False, tags):
+                return False
+        tr_s = guard(lambda: exp.parse_plan(w.P, action_sequence=list(lines)))
+        r.count("histories")
+        if not check_triplets(r, w, plan, tr_s, "shared-exporter", False, tags):
+            return False
     # (c) allow_invalid_actions
     tr3 = guard(lambda: TrajectoryExporter(w.D, allow_invalid_actions=True).parse_plan(w.P, action_sequence=list(lines)))
     r.count("histories")
@@ -204,6 +219,23 @@ def run_plan(r, w, plan, tags):
 
 
 _W = {}
+
+
+def name_has_other(w):
+    """a second problem of the same domain with one more object of every quantified type (cond domain only)"""
+    if w.name != "cond":
+        return False
+    if "other" not in w.__dict__:
+        import copy
+        from ..refsem import RefProblem
+        pt = md.ALL["cond"][1].replace("b b2 - t2", "b b2 b3 - t2").replace("(q a b2)", "(q a b2) (q a b3) (p b3)")
+        o = copy.copy(w)
+        o.RP = RefProblem.from_tree(sexp.read(pt))
+        o.objs = o.S.all_objects(o.RP.objects)
+        o.init = o.RP.state()
+        w.other = o
+        w.P_other = parse_problem(pt, w.D)
+    return True
 
 
 def check_case(case):
